@@ -97,6 +97,6 @@ Proof. vm_compute. repeat split; try reflexivity; discriminate. Qed.
 (* a run in which the EVerify conclusion is non-trivial: E injects an invalid round-2 broadcast, A names E *)
 Example C04_invalid_message_of_E_names_E :
   let st := run vh_pos fp_cantor view_dependent_valid 3 (init_sys vh_pos fp_cantor 3 7 9 shape_bb3)
-                [Inject 0 (mkMsg 7 9 2 None 2 true true 0 111 false)] in
+                [Inject 0 (mkMsg 7 9 2 None 2 true true 0 111 false NoPanic)] in
   h_err (s_h st 0) = Some ([2], EVerify).
 Proof. vm_compute. reflexivity. Qed.
